@@ -5,6 +5,7 @@ From Coq Require PrimFloat.
 (* PrimFloat is deliberately not imported: Print Assumptions then prints the primitives
    with their qualified names (PrimFloat.mul, ...), which is what the engine's allow-list matches. *)
 From Flocq Require Import Core.
+From NS Require Gen.TrF Proofs.TrEquivF20.
 From NS Require Import Base.FloatBridge Model.Audio Proofs.AudioPcm Proofs.Audio Proofs.AudioFloat.
 Import ListNotations.
 Local Open Scope Z_scope.
@@ -155,3 +156,26 @@ Example C20_nonvacuous :
   make_stereo 1 1 [1; 2; 3] [7] = Ok [(1, 7); (2, 0); (3, 0)].
 Proof. vm_compute. repeat split; reflexivity. Qed.
 Print Assumptions C20_nonvacuous.
+
+(** Source-level tie (second kind): the sample-count arithmetic of crop_samples and repeat_samples_to_duration,
+    re-translated from the SOURCE on every run into PrimFloat terms (Gen/TrF.v, harness/vt/pytr.py; `len(samples)`
+    is a parameter), equals the hand-written model, error cases included ([None] = the Python code raises). *)
+Theorem C20_source_crop_bounds : forall rate b t,
+  NS.Proofs.TrEquivF20.opt_of_res (crop_bounds rate b t) =
+  match NS.Gen.TrF.trf_crop_begin rate b, NS.Gen.TrF.trf_crop_total rate b t with
+  | Some a, Some n => Some (a, n)
+  | _, _ => None
+  end.
+Proof. exact NS.Proofs.TrEquivF20.trf_crop_bounds_eq. Qed.
+Print Assumptions C20_source_crop_bounds.
+
+Theorem C20_source_num_repeats : forall len rate d,
+  NS.Proofs.TrEquivF20.rate_zero_agrees rate = true ->
+  NS.Proofs.TrEquivF20.opt_of_res (num_repeats len rate d) = NS.Gen.TrF.trf_num_repeats len rate d.
+Proof. exact NS.Proofs.TrEquivF20.trf_num_repeats_eq. Qed.
+Print Assumptions C20_source_num_repeats.
+
+Theorem C20_source_quantifier_rates :
+  forallb NS.Proofs.TrEquivF20.rate_zero_agrees (0 :: 8000 :: 16000 :: 22050 :: 44100 :: 48000 :: nil) = true.
+Proof. exact NS.Proofs.TrEquivF20.quantifier_rates_agree. Qed.
+Print Assumptions C20_source_quantifier_rates.
